@@ -29,7 +29,7 @@ inductive Tok where
   | one
   | cls (neg : Bool) (cs : List UInt8)
   | rng (neg : Bool) (lo hi : UInt8)
-deriving BEq, Repr, DecidableEq
+deriving DecidableEq, Repr
 
 /-- bytes of the modelled pattern / name alphabet -/
 def okByte (c : UInt8) : Bool := c != 0 && c < 128 && c != 92 && c != 123
@@ -116,7 +116,7 @@ structure Chan where
   pat : Bool
   subs : List Nat
   queue : List Bytes := []
-deriving BEq, Repr, DecidableEq
+deriving DecidableEq, Repr
 
 abbrev Table := List Chan
 
@@ -124,7 +124,7 @@ abbrev Table := List Chan
 inductive Push where
   | confirm (conn : Nat) (action name : Bytes) (n : Nat)
   | message (conn : Nat) (name msg : Bytes)
-deriving BEq, Repr, DecidableEq
+deriving DecidableEq, Repr
 
 def Push.conn : Push → Nat
   | .confirm c _ _ _ => c
@@ -248,38 +248,59 @@ structure StepRes where
 
 def wrongArgs : Bytes := b "wrong number of arguments"
 
-/-- one command through handleCommand on connection `conn` (0 = the embedded caller without a connection) -/
-def step (t : Table) (conn : Nat) (cmd : List Bytes) : StepRes :=
-  if !(cmd.all okBytes && t.all (okBytes ·.name)) then ⟨t, .unmod "byte outside the modelled alphabet", []⟩ else
-  match cmd with
-  | [] => ⟨t, .unmod "empty command", []⟩
+/-- the pub/sub commands after the dispatcher's name lookup (getCommand / GetSubCommand are case-insensitive) -/
+inductive Cmd where
+  | sub (withPat : Bool) (args : List Bytes)
+  | unsub (withPat : Bool) (args : List Bytes)
+  | publish (args : List Bytes)
+  | pubsub (name : Bytes) (args : List Bytes)
+  | other
+deriving Repr
+
+def parseCmd : List Bytes → Cmd
+  | [] => .other
   | name :: args =>
     let n := toLower name
-    if n == b "subscribe" || n == b "psubscribe" then
-      if args.isEmpty then ⟨t, .err wrongArgs, []⟩ else
-      if conn == 0 then ⟨t, .unmod "subscribe without a connection", []⟩ else
-      let (t', ps, p) := subscribe conn (n == b "psubscribe") args t
-      ⟨t', if p then .panic else .silent, ps⟩
-    else if n == b "unsubscribe" || n == b "punsubscribe" then
-      let (t', ns, p) := unsubscribe conn (n == b "punsubscribe") args t
-      ⟨t', if p then .panic else .unsubReply (action (n == b "punsubscribe") true) ns, []⟩
-    else if n == b "publish" then
-      match args with
-      | [ch, msg] => ⟨publish msg ch t, .reply okReply, []⟩
-      | _ => ⟨t, .err wrongArgs, []⟩
-    else if n == b "pubsub" then
-      match args with
-      | [] => ⟨t, .err (b "provide CHANNELS, NUMPAT, or NUMSUB subcommand"), []⟩
-      | sub :: rest =>
-        let s := toLower sub
-        if s == b "channels" then
-          if rest.length > 1 then ⟨t, .err wrongArgs, []⟩ else
-          let p := rest.headD []
-          if !p.isEmpty && !compiles p then ⟨t, .panic, []⟩ else ⟨t, .reply (channelsReply p t), []⟩
-        else if s == b "numpat" then ⟨t, .reply (intReply (numPat t)), []⟩
-        else if s == b "numsub" then ⟨t, .reply (numSubReply rest t), []⟩
-        else ⟨t, .err (b "command " ++ name ++ b " " ++ sub ++ b " not supported"), []⟩
-    else ⟨t, .unmod "not a pub/sub command", []⟩
+    if n == b "subscribe" then .sub false args
+    else if n == b "psubscribe" then .sub true args
+    else if n == b "unsubscribe" then .unsub false args
+    else if n == b "punsubscribe" then .unsub true args
+    else if n == b "publish" then .publish args
+    else if n == b "pubsub" then .pubsub name args
+    else .other
+
+/-- commands.go: the handlers -/
+def exec (t : Table) (conn : Nat) : Cmd → StepRes
+  | .sub withPat args =>
+    if args.isEmpty then ⟨t, .err wrongArgs, []⟩ else
+    if conn == 0 then ⟨t, .unmod "subscribe without a connection", []⟩ else
+    let r := subscribe conn withPat args t
+    ⟨r.1, if r.2.2 then .panic else .silent, r.2.1⟩
+  | .unsub withPat args =>
+    let r := unsubscribe conn withPat args t
+    ⟨r.1, if r.2.2 then .panic else .unsubReply (action withPat true) r.2.1, []⟩
+  | .publish args =>
+    match args with
+    | [ch, msg] => ⟨publish msg ch t, .reply okReply, []⟩
+    | _ => ⟨t, .err wrongArgs, []⟩
+  | .pubsub name args =>
+    match args with
+    | [] => ⟨t, .err (b "provide CHANNELS, NUMPAT, or NUMSUB subcommand"), []⟩
+    | sub :: rest =>
+      let s := toLower sub
+      if s == b "channels" then
+        if rest.length > 1 then ⟨t, .err wrongArgs, []⟩ else
+        let p := rest.headD []
+        if !p.isEmpty && !compiles p then ⟨t, .panic, []⟩ else ⟨t, .reply (channelsReply p t), []⟩
+      else if s == b "numpat" then ⟨t, .reply (intReply (numPat t)), []⟩
+      else if s == b "numsub" then ⟨t, .reply (numSubReply rest t), []⟩
+      else ⟨t, .err (b "command " ++ name ++ b " " ++ sub ++ b " not supported"), []⟩
+  | .other => ⟨t, .unmod "not a pub/sub command", []⟩
+
+/-- one command through handleCommand on connection `conn` (0 = the embedded caller without a connection) -/
+def step (t : Table) (conn : Nat) (cmd : List Bytes) : StepRes :=
+  if !(cmd.all okBytes && t.all (okBytes ·.name)) then ⟨t, .unmod "byte outside the modelled alphabet", []⟩
+  else exec t conn (parseCmd cmd)
 
 /-- a block of commands. `immediate`: every dispatcher runs to completion after each command (the harness waits for
     quiescence); otherwise the dispatchers are parked until the end of the block. Returns the table, the outcome of
